@@ -2,12 +2,13 @@
 from __future__ import annotations
 
 import ast
+import decimal
 import math
 import struct
 from typing import Dict, List, Optional, Tuple
 
 from sa.astx import NotConst, call_attr, call_name, const_eval, dotted, lincmp, module_consts, src, statements, walk_local
-from sa.props._lib_g import (Inst, MiniEval, class_const, expand, fmt_lin, fresh, is_self_attr, lin_equal, lin_expect, must_pass, norm_cmp,
+from sa.props._lib_g import (Inst, MiniEval, attrs_to_names, class_const, expand, fmt_lin, fresh, is_self_attr, lin_equal, lin_expect, must_pass, norm_cmp,
                              run_eval, single_defs)
 from sa.selftest import Mutant, Silent
 from sa.source import AnalysisError, base_names, class_assigns, methods, mro_lookup
@@ -19,23 +20,24 @@ QA = "twisted.protocols.amp"
 QB = "twisted.protocols.basic"
 TECHNIQUE = "CFG guard dominance, linear boundary normal forms, symbolic wire layout, finite evaluation"
 EXPLANATION = (
-    "Writer (AmpBox.serialize): the symbolic sequence of emitted items per pair is len16(k) k len16(v) v followed by a "
-    "zero-length terminator, in the reader's struct format; every emit is dominated by guards whose normal form is exactly "
-    "len(k) <= 255, len(v) <= 65535, k and v not str, and the refusing edge cannot reach the normal exit; the missing lower "
-    "bound len(k) >= 1 is reported (known finding F30).  Reader: MAX_KEY_LENGTH/MAX_VALUE_LENGTH agree with "
-    "BinaryBoxProtocol's limits and with the 16-bit prefix; proto_init/proto_key/proto_value toggle MAX_LENGTH and return "
-    "states that have handlers; IntNStringReceiver.dataReceived keeps its four boundaries (prefix available, limit, message "
-    "complete, remainder kept) in normal form, slices prefix and payload contiguously and saves the unconsumed tail, which "
-    "is what makes arbitrary stream splits harmless.  Arguments: every Argument subclass pairs toString/fromString (and "
-    "the Proto/Box variants); Integer, String, Unicode, Boolean and Float conversions are evaluated by a whitelisted "
-    "interpreter on representative values (huge ints, NaN/inf/-0.0, non-BMP text); ListOf framing equals its parser's "
-    "format; AmpList and toBox/fromBox use the same keys both ways; DateTime's format string, slice table, sign index and "
-    "length check describe the same 32-character layout.  Not decided: Decimal/Path/DateTime value equality, TLS and "
-    "protocol switching."
+    'Writer (AmpBox.serialize): each pair is emitted symbolically as len16(k) k len16(v) v plus one zero-length '
+    "terminator in the reader's struct format, and every emit is dominated by guards whose normal form is exactly "
+    'len(k) <= 255, len(v) <= 65535, k/v not str, with a refusing edge that cannot reach the normal exit; the missing '
+    'lower bound len(k) >= 1 is reported as known finding F30. Reader: sender and receiver limits agree with each '
+    'other and with the 16-bit prefix, proto_init/proto_key/proto_value toggle MAX_LENGTH, keep the key until the '
+    'value is stored and return states that have handlers. Stream splits: IntNStringReceiver.dataReceived appends new '
+    'data after the pending bytes, keeps its boundaries (prefix available, limit, message complete) in normal form, '
+    'slices prefix and payload contiguously, advances the offset and saves the unconsumed tail on every exit. '
+    'Arguments: every Argument subclass pairs toString/fromString (and the Proto/Box variants); Integer, String, '
+    'Unicode, Boolean, Float and Decimal are evaluated by a whitelisted interpreter on representative values (huge '
+    "ints, NaN/inf/-0.0, Decimal specials, non-BMP text); ListOf framing equals its parser's format, AmpList and "
+    'toBox/fromBox use the same keys both ways. DateTime: format string, slice table, sign index and length check '
+    'describe one 32-character layout and the UTC-offset arithmetic is evaluated for 13 offsets. Not decided: Path '
+    'and DateTime date-field value equality, TLS and protocol switching.'
 )
 ASSUMPTIONS = [
     "struct codes and str/bytes/int/float builtins behave as in CPython 3.12 (they are evaluated by the analyser, not modelled)",
-    "twisted.python.compat.nativeString is not needed by the evaluated conversions (Decimal/DateTime are not evaluated)",
+    "twisted.python.compat.nativeString(bytes) is bytes.decode('ascii') (modelled, used by the Decimal evaluation)",
 ]
 
 
@@ -113,7 +115,10 @@ def _layout(stmts, aliases, acc, mapping, consts, out: List[Tuple]) -> None:
     for st in stmts:
         arg = _is_emit(st, aliases, acc)
         if arg is not None:
-            out.append(_classify_emit(arg, mapping, consts))
+            parts = [arg]
+            while any(isinstance(p, ast.BinOp) and isinstance(p.op, ast.Add) for p in parts):   # pack(...) + kv
+                parts = [x for p in parts for x in ((p.left, p.right) if isinstance(p, ast.BinOp) and isinstance(p.op, ast.Add) else (p,))]
+            out.extend(_classify_emit(p, mapping, consts) for p in parts)
             continue
         if isinstance(st, ast.For) and isinstance(st.target, ast.Name) and isinstance(st.iter, (ast.Tuple, ast.List)) \
                 and all(isinstance(e, ast.Name) for e in st.iter.elts) and not st.orelse:
@@ -331,6 +336,10 @@ def check_reader(ctx, mod, consts, reader_fmt: str):
                                                                           and is_self_attr(t.slice, "_currentKey") for t in st.targets) and src(st.value) == p)
     wit = g.must_pass([g.entry], store, exc=False)
     ctx.check(bool(store) and wit is None, "reader/value-stored", qq, "the received value is not stored under the remembered key", witness=g.describe(wit))
+    rekey = _assign_nodes(g, lambda st: any(is_self_attr(t, "_currentKey") for t in getattr(st, "targets", [])))
+    stale = [r for r in rekey if store and g.path([r], store, edge_ok=lambda a, b, l: l != "exc")]
+    ctx.check(not stale, "reader/value-stored", qq + " | <key still current>", "the remembered key is overwritten before the value is stored under it (the value lands under None / a stale key)",
+              witness=g.describe(g.path(stale[:1], store, edge_ok=lambda a, b, l: l != "exc")) if stale else "")
     to_key = _assign_nodes(g, lambda st: sets_limit(st, "_MAX_KEY_LENGTH"))
     wit = g.must_pass([g.entry], to_key, exc=False)
     ctx.check(bool(to_key) and wit is None, "reader/limit-toggle", qq, "after a value the length limit is not lowered back to _MAX_KEY_LENGTH "
@@ -560,8 +569,13 @@ def check_arguments(ctx, mod, consts):
                           f"{c.name} overrides {lone} but inherits {b if lone == a else a} from its base: the two directions no longer use the same encoding")
 
     # --- finite evaluation of the leaf conversions ------------------------------------------------------------
-    ev = MiniEval(mod)
+    def _native(x):
+        return x.decode("ascii") if isinstance(x, bytes) else x
+
+    ev = MiniEval(mod, helpers={"nativeString": _native, "decimal.Decimal": decimal.Decimal})
+    D = decimal.Decimal
     samples = {
+        "Decimal": [D("0"), D("-0"), D("1.5"), D("1.50"), D("1E+2"), D("-1E-7"), D("Infinity"), D("-Infinity"), D("NaN"), D("-sNaN"), D("123456789012345678901234567890.5")],
         "Integer": [0, 1, -1, 255, 2 ** 64, -(2 ** 200), 10 ** 30],
         "String": [b"", b"a", b"\x00\xff", b"x" * 300],
         "Unicode": ["", "a", "\u00e9", "\u20ac", "\U0001f600", "a\x00b", "\ud7ff"],
@@ -586,7 +600,10 @@ def check_arguments(ctx, mod, consts):
             k2, back = run_eval(lambda: ev.method(inst, "fromString", [s]))
             if k2 == "unsupported":
                 _fail(f"{cname}.fromString uses a construct outside the evaluated subset: {back}")
-            same = k2 == "value" and type(back) is type(v) and (back == v or (isinstance(v, float) and math.isnan(v) and math.isnan(back)))
+            if isinstance(v, decimal.Decimal):
+                same = k2 == "value" and isinstance(back, decimal.Decimal) and back.as_tuple() == v.as_tuple()
+            else:
+                same = k2 == "value" and type(back) is type(v) and (back == v or (isinstance(v, float) and math.isnan(v) and math.isnan(back)))
             if same and isinstance(v, float) and v == 0.0:
                 same = math.copysign(1.0, v) == math.copysign(1.0, back)
             if not same:
@@ -784,11 +801,59 @@ def check_datetime(ctx, mod, classes):
     idx = [n for n in ast.walk(fs) if isinstance(n, ast.Subscript) and isinstance(n.value, ast.Name) and n.value.id == fp and isinstance(n.slice, ast.Constant)]
     ctx.check(len(idx) == 1 and str_fields and idx[0].slice.value == str_fields[0][0][1], "datetime/layout", q + ".fromString | <sign index>",
               f"the writer puts the sign at character {str_fields[0][0][1] if str_fields else '?'}; the reader reads {src(idx[0]) if idx else 'nothing'}")
-    # tz hours / minutes operands
-    if len(int_fields) == 9:
-        h, m = src(int_fields[7][1]), src(int_fields[8][1])
-        ctx.check(h.endswith("// 60") and m.endswith("% 60") and h[:-5] == m[:-4] and h.startswith("abs("), "datetime/layout", q + ".toString | <offset split>",
-                  f"the UTC offset is written as hours={h}, minutes={m}; it must be abs(minutes) // 60 and abs(minutes) % 60")
+    # UTC offset: minutes computed from the timedelta, split into sign / hours / minutes, re-joined by fromSignHoursMinutes
+    if len(int_fields) == 9 and str_fields:
+        tdefs = single_defs(ts)
+        ev = MiniEval(mod)
+        h_e, m_e = int_fields[7][1], int_fields[8][1]
+        mvars = sorted({x.id for x in ast.walk(h_e) if isinstance(x, ast.Name)} & {x.id for x in ast.walk(m_e) if isinstance(x, ast.Name)} & set(tdefs))
+        offdef = tdefs.get(mvars[0]) if len(mvars) == 1 else None
+        g = ctx.cfg(ts)
+        bad = None
+        if offdef is None:
+            bad = "the offset-in-minutes local shared by the hours and minutes operands was not found"
+        else:
+            mv = mvars[0]
+            off_names = sorted({x.value.id for x in ast.walk(offdef) if isinstance(x, ast.Attribute) and isinstance(x.value, ast.Name)})
+            for m in (-840, -720, -90, -60, -1, 0, 1, 59, 60, 90, 330, 720, 840):
+                secs = m * 60
+                days, seconds = secs // 86400, secs % 86400      # timedelta normal form
+                e = offdef
+                for nm in off_names:
+                    e = attrs_to_names(e, nm)
+                env = {f"{nm}__days": days for nm in off_names}
+                env.update({f"{nm}__seconds": seconds for nm in off_names})
+                env.update({f"{nm}__microseconds": 0 for nm in off_names})
+                k, got = run_eval(lambda: ev.expr(e, env))
+                if k != "value" or got != m:
+                    bad = bad or f"a UTC offset of {m} minutes (timedelta(days={days}, seconds={seconds})) is computed as {got!r} by `{src(offdef)}`"
+                    continue
+                # sign chosen on this path
+                sign = None
+                for st in sign_all:
+                    nodes = g.ids_of(st)
+                    for n in nodes:
+                        okp = True
+                        for t, lab in g.edge_guards(n):
+                            if not any(isinstance(x, ast.Name) and x.id == mv for x in ast.walk(g.node(t).ast)):
+                                continue  # a test about something else (naive datetime refused earlier)
+                            kk, tv = run_eval(lambda: ev.expr(g.node(t).ast, {mv: m}))
+                            if kk != "value":
+                                okp = None
+                                break
+                            if bool(tv) != (lab == "T"):
+                                okp = False
+                        if okp:
+                            sign = st.value.value
+                k1, hh = run_eval(lambda: ev.expr(h_e, {mv: m}))
+                k2, mm = run_eval(lambda: ev.expr(m_e, {mv: m}))
+                if sign is None or k1 != "value" or k2 != "value":
+                    bad = bad or f"offset {m}: sign/hours/minutes not evaluable ({sign!r}, {hh!r}, {mm!r})"
+                    continue
+                back = (hh * 60 + mm) * (-1 if sign == "-" else 1)
+                if not (0 <= hh <= 99 and 0 <= mm <= 59 and back == m):
+                    bad = bad or f"a UTC offset of {m} minutes is written as {sign}{hh:02d}:{mm:02d}, which the reader turns into {back} minutes"
+        ctx.check(bad is None, "datetime/offset-arithmetic", q + ".toString | <UTC offset>", bad or "", detail="13 offsets between -14:00 and +14:00")
     calls = [c for c in ast.walk(fs) if isinstance(c, ast.Call) and call_attr(c) == "fromSignHoursMinutes"]
     ctx.check(len(calls) == 1 and len(calls[0].args) == 2 and isinstance(calls[0].args[1], ast.Starred) and src(calls[0].args[1].value).endswith("[7:]"), "datetime/layout",
               q + ".fromString | <tz fields>", "the two last integer fields are not passed as hours, minutes to fromSignHoursMinutes(sign, hours, minutes)")
@@ -826,6 +891,8 @@ MUTANTS = [
     Mutant("receiver-value-limit-shrunk", AMP, "    _MAX_VALUE_LENGTH = 65535\n", "    _MAX_VALUE_LENGTH = 65534\n", expect_rule="limits/value"),
     Mutant("limit-not-restored-after-value", AMP, "        self._currentKey = None\n        self.MAX_LENGTH = self._MAX_KEY_LENGTH\n", "        self._currentKey = None\n",
            expect_rule="reader/limit-toggle"),
+    Mutant("value-stored-under-cleared-key", AMP, "        self._currentBox[self._currentKey] = string\n        self._currentKey = None\n", "        self._currentKey = None\n        self._currentBox[self._currentKey] = string\n",
+           expect_rule="reader/value-stored"),
     Mutant("box-not-reset", AMP, "        self._currentBox = AmpBox()\n        return self.proto_key(string)\n", "        if self._currentBox is None:\n            self._currentBox = AmpBox()\n        return self.proto_key(string)\n",
            expect_rule="reader/fresh-box"),
     Mutant("terminator-returns-key-state", AMP, '            self._currentBox = None\n            return "init"\n', '            self._currentBox = None\n            return "key"\n',
@@ -847,6 +914,10 @@ MUTANTS = [
     Mutant("path-inherits-decoder", AMP, "    def fromString(self, inString):\n        return filepath.FilePath(Unicode.fromString(self, inString))\n\n", "", expect_rule="argument/pairing"),
     Mutant("listof-8bit-prefix", AMP, '            strings.append(pack("!H", len(serialized)))\n', '            strings.append(pack("!B", len(serialized)))\n', expect_rule="argument/list-framing"),
     Mutant("datetime-microsecond-slice", AMP, "        slice(20, 26),  # microsecond\n", "        slice(20, 25),  # microsecond\n", expect_rule="datetime/layout"),
+    Mutant("datetime-offset-ignores-days", AMP, "        minutesOffset = (offset.days * 86400 + offset.seconds) // 60\n", "        minutesOffset = offset.seconds // 60\n", expect_rule="datetime/offset-arithmetic"),
+    Mutant("datetime-hours-not-absolute", AMP, "            abs(minutesOffset) // 60,\n", "            minutesOffset // 60,\n", expect_rule="datetime/offset-arithmetic"),
+    Mutant("decimal-via-float-repr", AMP, '            return str(inObject).encode("ascii")\n        raise ValueError("amp.Decimal can only encode instances of decimal.Decimal")\n',
+           '            return str(float(inObject)).encode("ascii")\n        raise ValueError("amp.Decimal can only encode instances of decimal.Decimal")\n', expect_rule="argument/value-round-trip"),
     Mutant("datetime-sign-index", AMP, "        sign = s[26]\n", "        sign = s[25]\n", expect_rule="datetime/layout"),
     Mutant("frombox-raw-key", AMP, "        nk = _wireNameToPythonIdentifier(name)\n", "        nk = nativeString(name)\n", expect_rule="argument/box-keys"),
 ]
@@ -862,5 +933,6 @@ SILENT = [
            more=[(BASIC, "            if length > self.MAX_LENGTH:\n", "            if self.MAX_LENGTH < length:\n")]),
     Silent("f30-repaired-empty-key-refused", AMP, "            if len(k) > MAX_KEY_LENGTH:\n", "            if len(k) < 1 or len(k) > MAX_KEY_LENGTH:\n"),
     Silent("f30-repaired-truthiness", AMP, "            if len(k) > MAX_KEY_LENGTH:\n", "            if not k:\n                raise TooLong(True, True, k, None)\n            if len(k) > MAX_KEY_LENGTH:\n"),
+    Silent("datetime-sign-ge", AMP, "        if minutesOffset > 0:\n", "        if minutesOffset >= 0:\n"),
     Silent("boolean-ifexp", AMP, '        if inObject:\n            return b"True"\n        else:\n            return b"False"\n', '        return b"True" if inObject else b"False"\n'),
 ]
